@@ -118,6 +118,13 @@ def install_ext():
     return mods
 
 
+def pin_times(path):
+    """Give a scratch file that was just rewritten a fixed modification and access time: successive contents of one path
+    then differ in their bytes only (and often not in their size), so an answer remembered per (path, size, time stamp)
+    instead of per content shows up like one remembered per path."""
+    os.utime(path, (946684800, 946684800))
+
+
 class BudgetExceeded(Exception):
     pass
 
